@@ -172,3 +172,49 @@ example : (pop_init readLog default (genInit 5) "" []).map (fun r =>
     some ([some (some 2), some (some 4), some (some 3), none, some (some 4), none, none], [0, 2, 4, 3]) := by decide +kernel
 
 end C19
+
+namespace C19
+open Pop Gen.Algo RefinePop RefinePopFront
+
+/-! ## slices -/
+
+/-- the sub-sequence of `0 .. n-1` that `[a:b:c]` designates, written independently of `slice.indices` as a set-builder over
+`range(n)`: for a positive step the positions `lo ≤ i < hi` with `step ∣ i - lo` in ascending order, for a negative step the positions
+`hi < i ≤ lo` with `step ∣ lo - i` in descending order (`lo`, `hi`: the bounds counted from the end when negative, cut to the list) -/
+def sliceSpec (n : Nat) (a b c : Option Int) : Option (List Int) :=
+  let step := c.getD 1
+  let norm := fun (x : Int) => if x < 0 then x + n else x
+  if step = 0 then none
+  else if step > 0 then
+    let lo : Int := match a with | none => 0 | some a => max 0 (min n (norm a))
+    let hi : Int := match b with | none => n | some b => max 0 (min n (norm b))
+    some ((Py.range n).filter fun i => decide (lo ≤ i ∧ i < hi ∧ (i - lo) % step = 0))
+  else
+    let lo : Int := match a with | none => (n : Int) - 1 | some a => max (-1) (min ((n : Int) - 1) (norm a))
+    let hi : Int := match b with | none => -1 | some b => max (-1) (min ((n : Int) - 1) (norm b))
+    some (((Py.range n).filter fun i => decide (hi < i ∧ i ≤ lo ∧ (lo - i) % (-step) = 0)).reverse)
+
+/-- **`Population[a:b:c]` as translated (PARTIAL)**: for every population state and every slice, the result is the `NestTrees` over the
+population's own container with the index list `range(*slice(a, b, c).indices(len(self)))` (`Py.sliceIndices` is CPython's clamping
+algorithm, `Py.range3` the arithmetic progression), and `[k]` on it is the CONTAINER's `__getitem__` on the k-th entry (negative `k`
+wrap, IndexError outside) — so every read goes through the lazy cache (`generated_front_load_at_most_once`).
+MISSING for the full statement "= the sub-sequence Python's slice semantics designate": that this index list equals the independent
+set-builder `sliceSpec` is kernel-checked only on the box `n ≤ 4`, bounds in `None, -5 .. 5`, steps in `None, ±1, ±2, ±3` (the example
+below), not for every `n`; the correspondence compares it with CPython's `slice.indices` on every run. -/
+theorem generated_pop_slice_partial {g : LazyLoadingTrees} {l : Lazy} (h : LRep g l) (root : String) (s : Py.Slice) :
+    pop_getitem_slice ⟨g, root⟩ s = ((Py.sliceIndices s (l.len : Int)).bind Py.range3).map (fun idx => ⟨g, idx⟩) ∧
+    ∀ idx key, (match Py.idx idx key with
+       | none => nestl_getitem readLog ⟨g, idx⟩ key (castL l.log) = none
+       | some j => match l.get j with
+         | none => nestl_getitem readLog ⟨g, idx⟩ key (castL l.log) = none
+         | some (l', k) => ∃ g', nestl_getitem readLog ⟨g, idx⟩ key (castL l.log) = some (⟨g', idx⟩, castL l'.log, some (k : Int)) ∧ LRep g' l') :=
+  ⟨pop_getitem_slice_refines h root s, fun idx key => nestl_getitem_refines h idx key⟩
+
+def boxOpts : List (Option Int) := none :: ((List.range 11).map fun (k : Nat) => some ((k : Int) - 5))
+def boxSteps : List (Option Int) := [none, some 1, some 2, some 3, some (-1), some (-2), some (-3), some 0]
+
+/-- the index list of a slice is the designated sub-sequence, on a box (kernel-evaluated; 5 · 12 · 12 · 8 cases, step 0 included) -/
+example : ((List.range 5).all fun n => boxOpts.all fun a => boxOpts.all fun b => boxSteps.all fun c =>
+    decide ((Py.sliceIndices (a, b, c) (n : Int)).bind Py.range3 = sliceSpec n a b c)) = true := by decide +kernel
+
+end C19
